@@ -60,6 +60,12 @@ class C11(SCheck):
         if r.random() < 0.3:
             kernel["fiemap_flagbits"] = r.choice(gen.FIEMAP_FLAGBITS)
         if r.random() < 0.3:
+            # this kernel moves fewer bytes per call than a block: a retry after a short count must not run past the extent into the hole
+            kernel["max_io"] = r.choice([4096, 8192, 65536])
+        if r.random() < 0.3:
+            # extents that are adjacent on the device although the file has a hole between them
+            kernel["fiemap_phys_packed"] = True
+        if r.random() < 0.3:
             # the in-kernel copy is unavailable: the user-space read/write fallback must keep the holes as well
             kernel["cfr"] = r.choice(["ENOSYS", "EXDEV", "EPERM"])
         flags = {}
